@@ -1564,9 +1564,19 @@ def features(ns):
     return sorted(set(tags)), d
 
 
+_SLOW_RETRIES = [3]
+
+
 def run_impl(ns):
     doc = render_doc(ns)
-    return doc, (impl(doc) if ns.get("path", "direct") == "direct" else impl_conf(doc, variable_files(ns)))
+    direct = ns.get("path", "direct") == "direct"
+    out = impl(doc) if direct else impl_conf(doc, variable_files(ns))
+    if out.get("exception") == "HANG" and _SLOW_RETRIES[0] > 0:
+        # no answer within a few seconds: a loaded machine, or a loop?  (a few times per run) ask again with a
+        # generous limit before calling it a hang
+        _SLOW_RETRIES[0] -= 1
+        out = impl(doc, timeout=20) if direct else impl_conf(doc, variable_files(ns), timeout=20)
+    return doc, out
 
 
 def uses_process_state(ns):
